@@ -3,13 +3,19 @@
 (* tools/sysinj (ndjson, one per line: w, kind, retry, raws = the forced kernel answers       *)
 (* actually delivered, issues = number of times the wrapper issued the call, ended, res =     *)
 (* the Result the wrapper returned) and decides each against Syscall.tla's Conforms.          *)
-EXTENDS Syscall, TLC, Json, IOUtils, SequencesExt
+EXTENDS SyscallIdioms, TLC, Json, IOUtils, SequencesExt
 Rec == ndJsonDeserialize(IOEnv.TRACE)
 
 Judge(r) == Conforms(r.kind, r.retry, r.raws, r.issues, r.ended, r.res)
 
 Bad == {i \in 1..Len(Rec) : ~Judge(Rec[i])}
 ASSUME PrintT(<<"JUDGED", ToJson([n |-> Len(Rec), bad |-> SetToSeq(Bad)])>>)
+
+\* algorithm level: for every record, the (indices of the) idioms of SyscallIdioms that explain it
+Explained == [i \in 1..Len(Rec) |->
+                SetToSeq({k \in 1..Len(IdiomSeq) :
+                    Explains(IdiomSeq[k], Rec[i].raws, Rec[i].issues, Rec[i].ended, Rec[i].res)})]
+ASSUME IOEnv.EXPLAIN = "0" \/ PrintT(<<"IDIOMS", ToJson([names |-> IdiomSeq, of |-> Explained])>>)
 
 VARIABLE x
 Init == x = 0
